@@ -646,6 +646,55 @@ fn ensure_virtual_pages_mapped_to_physical_pages(ptr: NonNull<SlotMeta>, layout:
     }
 }
 
+#[cfg(folo_verif)]
+impl Slab {
+    /// Verification hook: read-only view of this slab's bookkeeping.
+    pub(crate) fn verif_probe(&self) -> crate::verif::SlabProbe {
+        let capacity = self.layout.capacity().get();
+
+        let tag = |index: usize| -> Option<usize> {
+            // SAFETY: Callers only pass in-bounds indexes; shared access to the slab means
+            // nobody is mutating slot metadata right now.
+            let meta = unsafe { self.slot_ptr_unchecked(index).as_ref() };
+            match meta {
+                SlotMeta::Occupied { .. } => None,
+                SlotMeta::Vacant {
+                    next_free_slot_index,
+                } => Some(*next_free_slot_index),
+            }
+        };
+
+        let occupied = (0..capacity).map(|index| tag(index).is_none()).collect();
+
+        let mut free_list_len = 0_usize;
+        let mut cursor = self.next_free_slot_index;
+        while cursor != capacity {
+            if cursor > capacity || free_list_len >= capacity {
+                free_list_len = usize::MAX;
+                break;
+            }
+            match tag(cursor) {
+                Some(next) => {
+                    free_list_len = free_list_len.wrapping_add(1);
+                    cursor = next;
+                }
+                None => {
+                    free_list_len = usize::MAX;
+                    break;
+                }
+            }
+        }
+
+        crate::verif::SlabProbe {
+            base: self.first_slot_ptr.as_ptr() as usize,
+            bytes: self.layout.slot_array_layout().size(),
+            count: self.count,
+            free_list_len,
+            occupied,
+        }
+    }
+}
+
 #[cfg(test)]
 #[cfg_attr(coverage_nightly, coverage(off))]
 mod tests {
